@@ -193,8 +193,8 @@ PROPS.update({
         "witness": ("c09", 6000),
         "level": "proof", "design_ref": "DESIGN.md section 5 C09",
         "assumptions": _U9_ASSUME + ["'the decoded message' is read off the byte-level postconditions: a splice of the decompressed packet at a record boundary changes exactly that record (uncompress_spec is proved message-preserving in C05); the decode function itself is not re-applied to the result in the proof"],
-        "level_text": "byte-exact frame postconditions: set_raw_name == splice(decompressed bytes, owner-name range, new name); delete == the record's byte range cut out, only its section's count lowered; insert_rr == the record spliced in at the end of the chosen section (start of the next non-empty section or end of packet), only that count raised; set_rr_ttl / set_rr_ip == exactly the 4 / 4 / 16 bytes at fixed offsets after the owner name; resize_rr == tail moved by the difference. Everything before the record and everything after it is proved byte-identical (moved), every untargeted field of the object equal",
-        "technique": "Verus byte-exact frame postconditions (Seq splice equalities) on the extracted mutators",
+        "level_text": "byte-exact frame postconditions: set_raw_name == splice(decompressed bytes, owner-name range, new name); delete == the record's byte range cut out, only its section's count lowered; insert_rr == the record spliced in at the end of the chosen section (start of the next non-empty section or end of packet), only that count raised; set_rr_ttl / set_rr_ip == exactly the 4 / 4 / 16 bytes at fixed offsets after the owner name; resize_rr == tail moved by the difference; every untargeted field of the object equal. Lifted to records for the three record sections (spec/walk.rs, `others_kept`, proved through the verified clients): after rename / delete / insert every record of every other section keeps its bytes and its index, the records of the edited section keep their bytes and their order, the renamed record is the new owner name followed by its old type / class / TTL / RDLENGTH / RDATA, the inserted record is the given record at the end of its section -- on the pointer-free form of the packet, where byte equality of a record is equality of the decoded record (C05 links it to the compressed original)",
+        "technique": "Verus byte-exact frame postconditions (Seq splice equalities) on the extracted mutators + record-level preservation lemmas composed in verified clients",
     },
     "C10": {
         "title": "A failed operation changes nothing; the size limit cannot be bypassed",
